@@ -27,6 +27,8 @@ def cases(tier, rng):
         for n in lens:
             for pat in (('rand',) if tier == 'quick' else ('rand', 'zero', 'ones')):
                 yield {'k': 'blake', 'size': size, 'n': n, 'L': None, 'sur': 0, 'salt': 'zero' if n % 3 else 'rand', 'pat': pat, 'single': n % 5 == 0}
+        for n in (1, 5, B - 1, B, B + 1, 2 * B + 3):
+            yield {'k': 'blake', 'size': size, 'n': n, 'L': 0, 'sur': 0, 'salt': 'zero' if n % 2 else 'rand', 'pat': 'rand', 'single': n == 5}
         spill = B - w // 4 - 1
         cs = {1, spill - 1, spill, spill + 1, B - 1, B, B + 1, B + spill, 2 * B}
         for n in sorted(cs):
